@@ -477,6 +477,14 @@ impl Run {
                 let cur = cur_dir.as_ref().map(|d| d.join(format!("shard-{i}.cur")));
                 let rec: Option<Value> = cur.as_ref().and_then(|f| std::fs::read_to_string(f).ok()).and_then(|s| serde_json::from_str(&s).ok());
                 match rec {
+                    Some(r) if cur_dir.is_some() && r["signature"].as_str() == Some("idle") => {
+                        // died in the harness's own work (building / proving a subject), not inside a judged call
+                        let case = r["case"].as_u64().unwrap_or(0);
+                        self.inconclusive(&format!("shard {i}: worker died outside a judged call in case {case} ({status})"));
+                        if restarts < 12 && case + 1 > skip {
+                            pending.push((i, case + 1, restarts + 1));
+                        }
+                    }
                     Some(r) if cur_dir.is_some() => {
                         let case = r["case"].as_u64().unwrap_or(0);
                         let sig = r["signature"].as_str().unwrap_or("unknown").to_string();
